@@ -190,8 +190,10 @@ def op_summary(case, vio):
 
 
 def record(case, vio):
+    got = vio.get("got") or {}
     return {
         "property": case["prop"],
+        "got_type": (got.get("e") or {}).get("type") if got.get("s") == "exc" else None,
         "violation_class": vio["class"],
         "features": features(case, vio),
         "op": op_summary(case, vio),
@@ -221,5 +223,7 @@ def matches(entry, rec):
         if rec["op"].get(k) != v:
             return False
     if "site_prefix" in m and not (rec.get("site") or "").startswith(m["site_prefix"]):
+        return False
+    if "got_type" in m and rec.get("got_type") != m["got_type"]:
         return False
     return True
